@@ -50,7 +50,8 @@ class ShapeDescriptionBase:
         self.thermoFactorMin = 1
 
     def _processAspectRatio(self, ar):
-        ar = np.atleast_1d(ar)
+        # work on a copy: clamping must not write into the caller's array
+        ar = np.array(ar, ndmin=1)
         ar[ar < 1] = 1
         return ar
 
